@@ -13,7 +13,10 @@ CHECKS = {
     "C12": dict(spec="TblScope", consts={Q: {"MaxLen": 3}, T: {"MaxLen": 4}},
                 tables=[("VERIF_TABLE_SCOPE", "c12scope", "scope"), ("VERIF_TABLE_AUD", "c12aud", "aud"), ("VERIF_TABLE_FLOW", "c12flow", "flow")],
                 cap={Q: 20000, T: 10**7}),
-    "C07L": dict(spec="TblLifespan", consts={Q: {}, T: {}}, tables=[("VERIF_TABLE_LIFE", "c07life", "life")], cap={Q: 400, T: 10**7}),
+    "C07L": dict(spec="TblLifespan", consts={Q: {}, T: {}}, tables=[("VERIF_TABLE_LIFE", "c07life", "life")], cap={Q: 400, T: 10**7}, also=["C07A"]),
+    # C07 "JWT assertions are refused once their expiry instant has passed": the rows of TblAssertion whose exp / nbf is not the right one
+    "C07A": dict(spec="TblAssertion", consts={Q: {"MaxDev": 2}, T: {"MaxDev": 3}}, tables=[("VERIF_TABLE_ASSERT", "c15", "assert")], cap={Q: 10**7, T: 10**7},
+                 rowfilter=lambda r: r["f"].get("exp") != "future" or r["f"].get("nbf", "absent") != "absent"),
     "C10": dict(spec="TblClientAuth", consts={Q: {}, T: {}}, tables=[("VERIF_TABLE_CLIENTAUTH", "c10", "clientauth")], cap={Q: 10**7, T: 10**7}),
     "C06": dict(spec="TblHmac", consts={Q: {}, T: {}}, tables=[("VERIF_TABLE_HMAC", "c06hmac", "hmac"), ("VERIF_TABLE_JWT", "c06jwt", "jwt")],
                 cap={Q: 10**7, T: 10**7}, n={Q: 4, T: 120}),
@@ -302,9 +305,13 @@ def run(key, prop, tier, seed, binary, wd):
     samples, undet, replays, known, parts = [], 0, [], set(), []
     for envname, kind, short in c["tables"]:
         rows = json.load(open(files[kind]))
+        tf = files[kind]
+        if c.get("rowfilter"):
+            rows = [r for r in rows if c["rowfilter"](r)]
+            tf = os.path.join(wd, f"table_{short}_filtered.json")
+            json.dump(rows, open(tf, "w"))
         full = len(rows)
         cap = c["cap"][tier]
-        tf = files[kind]
         if full > cap:
             random.Random(seed).shuffle(rows)
             rows = rows[:cap]
